@@ -3,7 +3,7 @@ From Coq Require Import Extraction ExtrOcamlBasic.
 From MW Require Import Concrete.
 Extraction Language OCaml.
 Extraction "mwm.ml"
-  c_instantiate c_execute c_reply c_sudo c_query c_tinstantiate c_texecute c_tquery tmigrate c_migrate c_render
+  c_instantiate c_legacy_uncounted c_execute c_reply c_sudo c_query c_tinstantiate c_texecute c_tquery tmigrate c_migrate c_render
   compute_mint compute_unbond get_rates validate_address_prefix validate_denom validate_ibc_denom
   valid_channel valid_addr derive sha256 b32_decode b32_encode to_base32 api_valid
   dec_to_string N_to_string str_bytes bytes_str nfind.
